@@ -22,7 +22,12 @@ Definition holds10 (c : C10_case) : Prop := holds10_case_b c = true.
    a freed handler leaves the registered set at once and is owed nothing by
    the dispatches and releases in progress; every call must be owed, so no
    call ever has a freed (or None) receiver; dispatches after the drop owe
-   exactly the listeners of the remaining registered handlers. *)
+   exactly the listeners of the remaining registered handlers.
+   World components (ACreate / ARemoveC / AReplace): an on_add postponed while
+   dispatching is disabled is a pending entry addressed to its component and
+   holds it - the component stays alive (is not freed by a Drop or by leaving
+   its World row) until that entry is delivered, and the delivery goes to it
+   even when it is no longer registered. *)
 Theorem C10_no_dead_receiver :
   forall c : C10_case, wf10_b c = true -> known10_b c = false -> accepts c = true -> holds10 c.
 Proof. exact C10_accepts_holds. Qed.
@@ -31,7 +36,7 @@ Print Assumptions C10_no_dead_receiver.
 (* Reading on the raw log: replaying only the Drop / call / return entries,
    no call has a receiver that was freed before. *)
 Theorem C10_calls_have_live_receivers :
-  forall p log, holdsq_b p log = true -> no_dead_call [] [] log = true.
+  forall p log, holdsq_b p log = true -> no_dead_call [] [] [] log = true.
 Proof. exact holdsq_no_dead_call. Qed.
 Print Assumptions C10_calls_have_live_receivers.
 
@@ -39,7 +44,7 @@ Print Assumptions C10_calls_have_live_receivers.
    later dispatch owes it nothing. *)
 Theorem C10_dropped_is_unregistered :
   forall p s h s', sstep p s (EAct (ADrop h)) = Some s' ->
-    inb h (s_gone s) = false -> inb h (s_recv s) = false ->
+    inb h (s_gone s) = false -> inb h (s_recv s) = false -> relay_holds h (s_pend s) = false ->
     inb h (s_reg s') = false /\ inb h (s_gone s') = true /\
     forall e, ~ exists m, In (h, m) (listeners p e (s_reg s')).
 Proof. exact dropped_is_unregistered. Qed.
